@@ -58,7 +58,7 @@ for k, (text, ref) in PARTIAL.items():
 EP = {
  "C17": ("Coq invariant by induction over ALL server operation sequences (steps with any datagrams from any addresses and any clock, flush, drop, send, disconnect): tracked addresses <= max_total_connections and the active list (every established connection) <= max_active_connections; a SYN is refused with ServerFull exactly when a limit is reached; promotion only while there is room. Tied by limits/lifecycle/forge streams over real UDP sockets with the virtual clock.", "DESIGN.md §5 C17"),
  "C18": ("Coq theorems: only a datagram of exactly 1472 bytes parses as a connection request; replies are 25 / 10 bytes and (10+1)*25 < 1472 (re-checked against the regenerated constants); untracked and pending addresses get no output for any other frame; the pending timer sends the stored reply once per expiry with a decreasing budget; and the summation over WHOLE histories (C18_no_amplification): for every history of server steps (any datagrams from any addresses, any clock values), flushes and application calls, and every address A without a Connect event, 1472 * bytes sent to A <= 275 * bytes received from A, by a potential argument through the timer heap. The same is checked on the implementation by the byte-count oracle (amplify/forge/limits streams incl. CRC-correct undersized requests).", "DESIGN.md §5 C18"),
- "C07": ("Coq theorems per handler for ALL states and frames: server/client Connect soundness (nonce echo while pending), forged / stale / duplicated handshake frames are the identity (an ACK or SYN+ACK reaching an established connection only moves its deadline), refusals carry the matching error and echo the SYN's nonce, both sides derive sequence numbers and limits symmetrically. Tied by forge/lifecycle/limits streams (raw peers forging every frame with chosen nonces at any point). Nonce guessing is outside the logic.", "DESIGN.md §5 C07"),
+ "C07": ("Coq theorems per handler for ALL states and frames: server/client Connect soundness (nonce echo while pending), forged / stale / duplicated handshake frames are the identity (an ACK or SYN+ACK reaching an established connection only moves its deadline), refusals carry the matching error and echo the SYN's nonce, both sides derive sequence numbers and limits symmetrically; and over WHOLE histories of the Client and Server models: Connect is reported only in a step whose datagrams include the SYN+ACK echoing the client's nonce, resp. — from that very address — an ACK carrying a nonce the server has sent to it in a SYN+ACK (C07_client_connect_history, C07_server_connect_history). Tied by forge/lifecycle/limits streams (raw peers forging every frame with chosen nonces at any point). Nonce guessing is outside the logic.", "DESIGN.md §5 C07"),
  "C08": ("Coq theorem over ALL client operation sequences: the whole event log is accepted by the automaton Connect? Receive* (Disconnect|Error)? with nothing after the end (induction over steps, per-handler grammar lemmas); and over ALL server operation sequences (C08_server_event_stream_wellformed): for every address the events about it, with the application's drop calls interleaved, are accepted by Idle -Connect-> Conn -Receive*-> Conn -Disconnect|Error|drop-> Idle (invariant over the address table and object states). The same grammar is checked on the implementation by the grammar oracle on lifecycle/forge/limits streams.", "DESIGN.md §5 C08"),
  "C09": ("Coq theorems: a flushing disconnect only becomes a disconnect request when send queue, pending queue and resend queue are empty; the receiving side delivers everything it holds before reporting Disconnect; retry budget constants (11 x 2 s = 22 s). End-to-end ordering and the time bound are decided by the flush-order oracle on the lifecycle stream and by correspondence under the virtual clock: PARTIAL.", "DESIGN.md §5 C09"),
  "C10": ("Coq theorems on the client model: exact semantics of every timer expiry (handshake / closing budgets of 10 resends 2 s apart, active deadline, closed linger), every handled frame of the connection moves the deadline a full active_timeout ahead, the first deadline counts from handshake completion. Server timers, keepalive sufficiency and promptness over histories are decided by the timers/lifecycle streams with the timeout oracle and by correspondence: PARTIAL.", "DESIGN.md §5 C10"),
